@@ -120,6 +120,8 @@ class DULServiceProvider(threading.Thread):
             self.event.append(fsm.Events.EVT_5)
 
         self.dul_socket = dul_socket
+        # association requestor opens its own connection, acceptor is handed one
+        self.requestor = not dul_socket
         self.raw_pdu = b''
 
         self.is_killed = False
